@@ -31,11 +31,12 @@ const (
 	FWriteShort  uint32 = 6 // injected: writer returns (n<len, err) and stays broken
 	FExecErr     uint32 = 7 // injected: context call-back returns an error
 	FExecErrP2   uint32 = 8 // injected: call-back returns a *pongo2.Error
-	FExecPanic   uint32 = 9 // injected: call-back panics (caller code dies in the middle of an execution)
-	faultKindMax        = 10
+	FExecPanic   uint32 = 9  // injected: call-back panics (caller code dies in the middle of an execution)
+	FGetPanic    uint32 = 10 // injected: the loader panics inside Get (caller code dies in the middle of a load)
+	faultKindMax        = 11
 )
 
-var faultNames = [...]string{"none", "get_enoent", "get_eio", "read_eio_at", "read_short", "write_eio_at", "write_short_at", "exec_err_at", "exec_err_p2_at", "exec_panic_at"}
+var faultNames = [...]string{"none", "get_enoent", "get_eio", "read_eio_at", "read_short", "write_eio_at", "write_short_at", "exec_err_at", "exec_err_p2_at", "exec_panic_at", "get_panic"}
 
 // InjectedPanic is the value a call-back panics with under FExecPanic.
 type InjectedPanic struct{}
@@ -310,10 +311,10 @@ func (w *World) Resume(seq uint64, m *Msg) Reply {
 		if f, ok := w.matchFault(t, KGet, d.id, p); ok {
 			w.Fired[FaultName(f.Fault)]++
 			switch f.Fault {
-			case FGetEIO:
-				rec.Fault = FGetEIO
+			case FGetEIO, FGetPanic:
+				rec.Fault = f.Fault
 				w.Gets = append(w.Gets, rec)
-				return Reply{D: FGetEIO}
+				return Reply{D: f.Fault}
 			case FReadEIO, FReadShort:
 				vers, has := d.spec.Files[p]
 				if has && !vers[d.cur[p]].Absent {
@@ -391,6 +392,8 @@ func (w *World) open(diskID int, p string) (*simFile, error) {
 		return nil, &fs.PathError{Op: "open", Path: p, Err: fs.ErrNotExist}
 	case FGetEIO:
 		return nil, &fs.PathError{Op: "open", Path: p, Err: ErrInjectedIO}
+	case FGetPanic:
+		panic(InjectedPanic{})
 	}
 	content := w.disks[diskID].spec.Files[p][rep.A].Content
 	f := &simFile{w: w, name: p, data: content}
